@@ -1215,7 +1215,69 @@ fn spec_from_json(v: &Value) -> Vec<MSpec> {
         .collect()
 }
 
+
+// ------------------------------------------------------------------------------------------ probe
+/// a reader that logs what is asked of it (used to look at the access pattern of the zip crate through
+/// CloneableSeekableReader)
+struct Logged {
+    inner: Cursor<Vec<u8>>,
+    log: Arc<std::sync::Mutex<Vec<(u64, usize, usize)>>>, // (position, asked, got)
+}
+impl Read for Logged {
+    fn read(&mut self, buf: &mut [u8]) -> std::io::Result<usize> {
+        let p = self.inner.position();
+        let k = self.inner.read(buf)?;
+        self.log.lock().unwrap().push((p, buf.len(), k));
+        Ok(k)
+    }
+}
+impl Seek for Logged {
+    fn seek(&mut self, pos: SeekFrom) -> std::io::Result<u64> {
+        self.inner.seek(pos)
+    }
+}
+impl HasLength for Logged {
+    fn len(&self) -> u64 {
+        self.inner.get_ref().len() as u64
+    }
+}
+fn probe2() {
+    let f = |n: &str, d: Vec<u8>| MSpec { name: n.into(), kind: 0, data: d, deflate: false };
+    let cancel = Arc::new(AtomicBool::new(false));
+    let mut bad = vec![];
+    for s in 0..6000usize {
+        let bytes = write_zip(&[f("skip.bin", vec![7u8; s]), f("want.txt", b"WANTED".to_vec()), f("w2.txt", b"W2".to_vec())], &[]).unwrap();
+        let t = tempfile::tempdir().unwrap();
+        let r = extract_to_dir(SeekableChain::new(vec![Cursor::new(bytes)]), t.path(), Some(vec!["want.txt".into(), "w2.txt".into()]), &HashMap::new(), &cancel);
+        let c = std::fs::read(t.path().join("want.txt")).ok();
+        let c2 = std::fs::read(t.path().join("w2.txt")).ok();
+        let ok = matches!(&r, Ok(v) if v.len() == 2) && c.as_deref() == Some(&b"WANTED"[..]) && c2.as_deref() == Some(&b"W2"[..]);
+        if !ok {
+            bad.push((s, format!("{:?}", r), c, c2));
+        }
+    }
+    println!("probe2 bad: {:?}", bad);
+}
+fn probe() {
+    probe2();
+    let f = |n: &str, d: Vec<u8>| MSpec { name: n.into(), kind: 0, data: d, deflate: false };
+    let cancel = Arc::new(AtomicBool::new(false));
+    for s in [10usize, 1000, 70000, 200000] {
+        let bytes = write_zip(&[f("skip.bin", vec![7u8; s]), f("want.txt", b"WANTED".to_vec())], &[]).unwrap();
+        let log = Arc::new(std::sync::Mutex::new(vec![]));
+        let t = tempfile::tempdir().unwrap();
+        let r = extract_to_dir(Logged { inner: Cursor::new(bytes.clone()), log: log.clone() }, t.path(), Some(vec!["want.txt".into()]), &HashMap::new(), &cancel);
+        let l = log.lock().unwrap();
+        let total: usize = l.iter().map(|x| x.2).sum();
+        println!("s={} len={} result={:?} reads={} total_read={} first reads {:?}", s, bytes.len(), r, l.len(), total, &l[..l.len().min(12)]);
+    }
+}
+
 fn main() {
+    if std::env::var("C20_PROBE").is_ok() {
+        probe();
+        return;
+    }
     let a = parse_args();
     let mut sink = Sink::new("C20", &a.out);
     sink.shard_size = 60;
